@@ -98,7 +98,10 @@ type Field struct {
 	Range        *Range
 	Options      []string
 	FromString   bool
-	order        []int // permutation of the option segments in the tag
+	// Bracket: the options are spelled `options=[a,b,c]` instead of `options=a|b|c`
+	// (scale unit; the small generators always use the bar notation).
+	Bracket bool
+	order   []int // permutation of the option segments in the tag
 }
 
 // IsOptional reports whether any optional form is declared on the field.
@@ -141,7 +144,11 @@ func (f *Field) TagValue() string {
 		segs = append(segs, "range="+f.Range.Tag())
 	}
 	if len(f.Options) > 0 {
-		segs = append(segs, "options="+strings.Join(f.Options, "|"))
+		if f.Bracket {
+			segs = append(segs, "options=["+strings.Join(f.Options, ",")+"]")
+		} else {
+			segs = append(segs, "options="+strings.Join(f.Options, "|"))
+		}
 	}
 	if f.FromString {
 		segs = append(segs, "string")
